@@ -9,6 +9,8 @@ Definition ltb (a b : Q) := negb (Qle_bool b a).
 Definition eqb := Qeq_bool.
 Definition absn := Qabs.
 Definition PIn : Q := 1.
+(* canonical form of an intermediate result (keeps long sums small under vm_compute); the identity under R *)
+Definition nrm (x : Q) : Q := Qred x.
 Definition modn (x m : Q) : Q := x - m * inject_Z (Qfloor (x / m)).
 (* encoding of results for the correspondence check: reduced numerator / denominator *)
 Definition encq (q : Q) : list Z := let r := Qred q in [Qnum r; Zpos (Qden r)].
